@@ -203,7 +203,8 @@ func (v *VecDense) Zero() {
 // CloneFromVec makes a copy of a into the receiver, overwriting the previous value
 // of the receiver.
 func (v *VecDense) CloneFromVec(a Vector) {
-	if v == a {
+	aU, _ := untransposeExtract(a)
+	if v == aU {
 		return
 	}
 	n := a.Len()
@@ -215,12 +216,21 @@ func (v *VecDense) CloneFromVec(a Vector) {
 		// be used as contiguous storage.
 		data = nil
 	}
+	r, isRaw := aU.(RawVectorer)
+	if isRaw && n != 0 && len(data) >= n {
+		// Do not reuse the storage of the receiver when a shares it:
+		// a must not be modified and is read while v is written.
+		src := r.RawVector().Data
+		if off := offset(data[:1], src[:1]); (off >= 0 && off < n) || (off < 0 && -off < len(src)) {
+			data = nil
+		}
+	}
 	v.mat = blas64.Vector{
 		N:    n,
 		Inc:  1,
 		Data: use(data, n),
 	}
-	if r, ok := a.(RawVectorer); ok {
+	if isRaw {
 		blas64.Copy(r.RawVector(), v.mat)
 		return
 	}
